@@ -531,12 +531,10 @@ class RecipeOuterLoop:
         st.next_id = nid
         st.loc["__i%d" % ordinal] = Num(z3.Int(tag + ".i"))
         logic.REG.index_consts.add(tag + ".i")
-        if not self.inner:
-            for nm in ("edge_idx", "qty", "edge", "_"):
-                st.loc[nm] = None
-        else:
-            st.loc["edge"] = None
-            st.loc["_"] = None
+        # locals assigned somewhere in this loop are dead at its head (each is assigned before use in a round)
+        for n_ in ast.walk(node):
+            if isinstance(n_, ast.Name) and isinstance(n_.ctx, ast.Store) and n_.id not in ("reservation_tokens", "reservation_indx"):
+                st.loc[n_.id] = None
         st.ghost["epoch"] = st.ghost.get("epoch", 0) + 1
 
     def inv(self, ex, entry, st, mode):
